@@ -1,6 +1,6 @@
 (* C55 -- pinned property theorems (nothing else lives here) *)
 From Coq Require Import List NArith Bool.
-From V Require Import Base.Term Gen.CharClass C55.Model C55.Proofs.
+From V Require Import Base.Term Gen.CharClass C55.Model C55.Proofs C15.Model C15.Proofs.
 Import ListNotations.
 Open Scope N_scope.
 
@@ -36,6 +36,12 @@ Theorem atom_text_injective : forall s1 s2, in_alphabet s1 -> in_alphabet s2 ->
   atom_text true s1 = atom_text true s2 -> s1 = s2.
 Proof. exact atom_text_injective_proof. Qed.
 Print Assumptions atom_text_injective.
+
+(* write_canonical ignores operators: the functional-notation text of every term of the fragment (the text the
+   implementation's write_canonical/1 is compared with) is read back by a reader that knows NO operator table *)
+Theorem canonical_has_no_operators : forall t, wf t -> read_canonical_ref (write_canonical_ref t) = Some t.
+Proof. exact canonical_roundtrip_proof. Qed.
+Print Assumptions canonical_has_no_operators.
 
 (* the comparison function of the correspondence means what it says *)
 Theorem check_atom_meaning : forall s wq wt fq w back, check_atom s wq wt fq w back = true ->
